@@ -39,6 +39,7 @@ var allowedEmissionGuards = []struct{ prefix, reason string }{
 
 // allowedEscape: edges on which an admitted record is legitimately not emitted by this function.
 func allowedEscape(desc string) (string, bool) {
+	desc = strings.Replace(desc, ":call findWriter ", ":call Entry.findWriter ", 1) // the selector as a package-level function
 	for _, e := range []struct{ d, why string }{
 		{"T:Entry.handlerOpt != nil", "a logger constructed with a log/slog handler option hands the record to it"},
 		{"F:Entry.handlerOpt == nil", "a logger constructed with a log/slog handler option hands the record to it"},
@@ -55,6 +56,7 @@ func allowedEscape(desc string) (string, bool) {
 }
 
 func allowedGuard(desc string) (string, bool) {
+	desc = strings.Replace(desc, ":call findWriter ", ":call Entry.findWriter ", 1)
 	for _, a := range allowedEmissionGuards {
 		if strings.HasPrefix(desc, a.prefix) || strings.Contains(desc[2:], a.prefix) && !strings.HasPrefix(a.prefix, "T:") && !strings.HasPrefix(a.prefix, "F:") {
 			return a.reason, true
